@@ -271,7 +271,10 @@ def render_text(val, ch, toks):
             spelled = []
             for c in run:
                 if c == 10:
-                    spelled += [[10], [13], [13, 10]][ch.pick(3, "cdataeol")]
+                    eol = [[10], [13], [13, 10]][ch.pick(3, "cdataeol")]
+                    if eol == [10] and spelled and spelled[-1] == 13:
+                        eol = [13, 10]          # (a CR written for the line feed before, then a bare LF, would read as ONE line end)
+                    spelled += eol
                 else:
                     spelled.append(c)
             toks.append(tok("cdata", [part("lit", "<![CDATA["), part("cdata", spelled), part("lit", "]]>")], v=spelled))
